@@ -90,6 +90,9 @@ def IsListofNums(s):
     return False
 
 def GetArg(s):
+  # the value of a keyword argument is matched up to the next "," or ")" and
+  # may carry surrounding blanks: "alpha='auto' , use_01=True )"
+  s = s.strip()
   if IsBool(s):
     return Bool(s)
   elif IsNum(s):
